@@ -69,6 +69,7 @@ structure Cons where
                   -- 4 field ancillary, 5 coordinate reference, 6 bounds, 7 field, 8 domain
   attrs : List (String × String) := []   -- the properties that become netCDF attributes
   strlen : Option Nat := none            -- string data stored as char: length of the extra dimension
+  shape : List Nat := []                 -- shape of the data (without the char dimension): part of "same contents"
   deriving DecidableEq, Repr, Inhabited
 
 structure SeenE where
@@ -76,6 +77,7 @@ structure SeenE where
   kind : Nat
   ncvar : Name
   ncdims : Option (List Name)
+  shape : List Nat := []                 -- shape of the data of the registered construct
   deriving DecidableEq, Repr, Inhabited
 
 /-- `ncvar_names`, `ncdim_to_size`, `dimensions_with_role`: touched only through the name commands. -/
@@ -119,6 +121,7 @@ inductive Err
   | nameInUse (n : Name)       -- netCDF4: "String match to name in use"
   | keyError (what : String)   -- a Python dictionary look-up that fails
   | noSuchDim (d : Name)       -- netCDF4: "cannot find dimension … in this group or parent groups"
+  | shapeMismatch (d : Name)   -- netCDF4: data whose extent along a fixed-size dimension is not the dimension's size
   | refused (why : String)
   deriving DecidableEq, Repr
 
@@ -146,13 +149,21 @@ def netcdfName (blanksFirst : Bool) (n : NameReg) (base : Name) : Name × NameRe
   let nm := if blanksFirst then nm else underscore nm
   (nm, { n with names := n.names ++ [nm], allocated := n.allocated ++ [nm] })
 
+/-- `_netcdf_name(base)` in the dry run of append mode, as proposed (C17-append-dry-run-names): every construct
+comes from the dataset and asks for the name it has there; the name is registered as it is. -/
+def keepName (_blanksFirst : Bool) (n : NameReg) (base : Name) : Name × NameReg :=
+  let nm := underscore base     -- blanks are replaced, before or after the (absent) uniqueness test
+  (nm, { n with names := n.names ++ [nm], allocated := n.allocated ++ [nm] })
+
 /-- `_netcdf_name(base, dimsize, role)`: an existing dimension of that role and size, else a new name
-registered under the role.  The Boolean tells whether the name is new. -/
-def netcdfNameRole (blanksFirst : Bool) (n : NameReg) (base : Name) (size : Nat) (role : String) : Name × Bool × NameReg :=
+registered under the role.  The Boolean tells whether the name is new.  `keep`: the dry run of the proposed
+code (no uniqueness test). -/
+def netcdfNameRole (blanksFirst : Bool) (n : NameReg) (base : Name) (size : Nat) (role : String) (keep : Bool := false) :
+    Name × Bool × NameReg :=
   match n.roles.find? (fun (r, d) => r == role && n.sizeOf? d == some size) with
   | some (_, d) => (d, false, n)
   | none =>
-    let (nm, n') := netcdfName blanksFirst n base
+    let (nm, n') := if keep then keepName blanksFirst n base else netcdfName blanksFirst n base
     (nm, true, { n' with roles := n'.roles ++ [(role, nm)] })
 
 /-! ## Programs -/
@@ -170,7 +181,8 @@ inductive Prog (α : Type) : Type where
   | addName : Name → Prog α → Prog α                                 -- `ncvar_names.add(name)`
   | createDim : Dim → Prog α → Prog α                                -- `createDimension` (raises if the name is in use)
   | ensureDim : Dim → Prog α → Prog α                                -- `createDimension` with the error swallowed
-  | createVar : Var → Prog α → Prog α                                -- `createVariable` + `setncatts`
+  /-- `createVariable` + `setncatts` + `g['nc'][ncvar][...] = array`; the list is the shape of the array -/
+  | createVar : Var → List Nat → Prog α → Prog α
   | setAttr : Name → String → String → Prog α → Prog α               -- `g['nc'][ncvar].setncattr`, KeyError swallowed
   | setGlobal : String → String → Prog α → Prog α                    -- `g['netcdf'].setncattr`
 
@@ -186,7 +198,7 @@ def Prog.bind {α β : Type} : Prog α → (α → Prog β) → Prog β
   | .addName n p, f => .addName n (p.bind f)
   | .createDim d p, f => .createDim d (p.bind f)
   | .ensureDim d p, f => .ensureDim d (p.bind f)
-  | .createVar v p, f => .createVar v (p.bind f)
+  | .createVar v e p, f => .createVar v e (p.bind f)
   | .setAttr n k v p, f => .setAttr n k v (p.bind f)
   | .setGlobal k v p, f => .setGlobal k v (p.bind f)
 
@@ -208,14 +220,42 @@ structure Fix where
   names : Bool := true           -- C17-append-register-names: every name of the dataset is registered
   blanks : Bool := true          -- C17-netcdf-name-blanks: blanks replaced before the uniqueness test
   fill : Bool := true            -- C17-append-fill-value: missing_value ≠ _FillValue no longer rejected
+  /-- a dimension coordinate without netCDF variable name and standard name takes the netCDF dimension name of its
+  axis *through `_netcdf_name`* (in /repo since d714c80; `false`: the name is used as it is) -/
+  dimCoordName : Bool := true
+  /-- C17-append-dry-run-names: in the dry run `_netcdf_name` registers the name asked for as it is (proposed;
+  `false`: the dry run makes names unique again, in the reader's order) -/
+  dryNames : Bool := true
   /-- not a patch: every site that sets a global attribute of the dataset (`_write_global_attributes`,
   `_set_external_variables`) is skipped when `post_dry_run`.  `false` is the seeded variant in which the
   `external_variables` site lost its guard. -/
   globalsGuarded : Bool := true
+  /-- not a patch: the pinned-dimension reuse of the axis branch demands that the registered dimension has the
+  size of the axis.  `false` is the seeded variant "an unlimited axis may use an unlimited dimension of that
+  name whatever its length". -/
+  pinnedSize : Bool := true
   deriving Repr, DecidableEq
 
 def Fix.new : Fix := {}
-def Fix.old : Fix := { formulaTerms := false, featureType := false, globals := false, names := false, blanks := false, fill := false }
+def Fix.old : Fix := { formulaTerms := false, featureType := false, globals := false, names := false, blanks := false, fill := false,
+                       dimCoordName := false, dryNames := false }
+
+/-! ### Writing data along an unlimited dimension
+
+netCDF: all variables on an unlimited dimension share its current length.  `var[...] = array` with more
+records than the dimension has makes the dimension — hence every variable on it — longer (the other
+variables are padded with missing data); with fewer records the new variable has the dimension's length
+all the same.  Along a fixed-size dimension the extents must agree (netCDF4-python: ValueError). -/
+
+/-- The length of dimension `D` after an array with extents `wr` (dimension name, extent) has been written. -/
+def growDim (wr : List (Name × Nat)) (D : Dim) : Dim :=
+  if D.unlim then { D with size := wr.foldl (fun s p => if p.1 == D.name then max s p.2 else s) D.size } else D
+
+def grow (dims : List Dim) (wr : List (Name × Nat)) : List Dim := dims.map (growDim wr)
+
+/-- A fixed-size dimension along which the array has another extent. -/
+def misfit (dims : List Dim) (wr : List (Name × Nat)) : Option (Name × Nat) :=
+  wr.find? (fun p => dims.any (fun D => D.name == p.1 && !D.unlim && D.size != p.2))
 
 def setVarAttr (ds : Ds) (n : Name) (k v : String) : Ds :=
   { ds with vars := ds.vars.map (fun x => if x.name == n then { x with attrs := x.attrs.filter (·.1 != k) ++ [(k, v)] } else x) }
@@ -229,10 +269,10 @@ def run (fx : Fix) (m : Mode) : Prog α → Reg → FileSt → Except Err α × 
   | .get k, r, fs => run fx m (k r) r fs
   | .modAux g p, r, fs => run fx m p { r with aux := g r.aux } fs
   | .alloc b k, r, fs =>
-    let (n, nm) := netcdfName fx.blanks r.nm b
+    let (n, nm) := if m == .dry && fx.dryNames then keepName fx.blanks r.nm b else netcdfName fx.blanks r.nm b
     run fx m (k n) { r with nm := nm } fs
   | .allocRole b s role k, r, fs =>
-    let (n, _, nm) := netcdfNameRole fx.blanks r.nm b s role
+    let (n, _, nm) := netcdfNameRole fx.blanks r.nm b s role (m == .dry && fx.dryNames)
     run fx m (k n) { r with nm := nm } fs
   | .noteDim n s p, r, fs =>
     run fx m p { r with nm := { r.nm with dimSize := r.nm.dimSize.filter (·.1 != n) ++ [(n, s)] } } fs
@@ -245,12 +285,17 @@ def run (fx : Fix) (m : Mode) : Prog α → Reg → FileSt → Except Err α × 
   | .ensureDim d p, r, fs =>
     if m == .dry || fs.ds.dimNames.contains d.name then run fx m p r fs
     else run fx m p r { fs with ds := { fs.ds with dims := fs.ds.dims ++ [d] } }
-  | .createVar v p, r, fs =>
+  | .createVar v ext p, r, fs =>
     if m == .dry then run fx m p r fs
     else if fs.ds.varNames.contains v.name then (.error (.nameInUse v.name), r, fs)
     else match v.dims.find? (fun d => !fs.ds.dimNames.contains d) with
       | some d => (.error (.noSuchDim d), r, fs)
-      | none => run fx m p r { ds := { fs.ds with vars := fs.ds.vars ++ [v] }, created := fs.created ++ [v.name] }
+      | none =>
+        match misfit fs.ds.dims (v.dims.zip ext) with
+        | some p => (.error (.shapeMismatch p.1), r, fs)
+        | none =>
+          run fx m p r { ds := { fs.ds with dims := grow fs.ds.dims (v.dims.zip ext), vars := fs.ds.vars ++ [v] },
+                         created := fs.created ++ [v.name] }
   | .setAttr n k v p, r, fs =>
     if m == .dry || !fs.created.contains n then run fx m p r fs
     else run fx m p r { fs with ds := setVarAttr fs.ds n k v }
@@ -283,8 +328,9 @@ inductive Req
   | domAnc (key : Nat) (c : Cons) (axes : List Nat) (base : Name) (b : Option BReq)
   /-- cell measure; `ext = some ncvar`: flagged external (`nc_get_external`), with its netCDF variable name -/
   | msr (key : Nat) (c : Cons) (axes : List Nat) (base : Name) (measure : String) (ext : Option Name := none)
-  /-- formula terms of one reference: owning coordinate key, its axis, (term, key, axes of the ancillary). -/
-  | formula (owner : Nat) (zaxis : Nat) (terms : List (String × Nat × List Nat))
+  /-- formula terms of one reference: owning coordinate key, its axis, (term, key, axes of the ancillary), and the
+  scalar parameters (term, the `Data` value: `_write_scalar_data`). -/
+  | formula (owner : Nat) (zaxis : Nat) (terms : List (String × Nat × List Nat)) (params : List (String × Cons) := [])
   | gridMap (c : Cons) (base : Name) (coordKeys : List Nat) (multiple : Bool)
   | fieldAnc (key : Nat) (c : Cons) (axes : List Nat) (base : Name)
   /-- the data (or domain) variable; `cms`: per cell method (axes as axis number or literal, rest of the string). -/
@@ -316,10 +362,10 @@ def lookup {β} (l : List (Nat × β)) (k : Nat) : Option β := (l.find? (·.1 =
 def alreadyInFile (a : Aux) (c : Cons) (ncdims : Option (List Name)) (ignoreType : Bool) : Option SeenE :=
   a.seen.find? (fun e =>
     (match ncdims with | none => true | some d => e.ncdims == some d) &&
-    e.cid == c.cid && (ignoreType || e.kind == c.kind))
+    e.cid == c.cid && e.shape == c.shape && (ignoreType || e.kind == c.kind))
 
 def regSeen (c : Cons) (ncvar : Name) (ncdims : Option (List Name)) (a : Aux) : Aux :=
-  { a with seen := a.seen ++ [⟨c.cid, c.kind, ncvar, ncdims⟩] }
+  { a with seen := a.seen ++ [⟨c.cid, c.kind, ncvar, ncdims, c.shape⟩] }
 
 def axisDims (a : Aux) (axes : List Nat) : Option (List Name) := axes.mapM (lookup a.axisDim)
 
@@ -345,11 +391,12 @@ def writeVar (ncvar : Name) (ncdims : List Name) (c : Cons) (extra : List (Strin
   let m ← getMode
   if m == .dry then pure ()
   else
-    let dims ← match c.strlen with
-      | none => pure ncdims
-      | some n => do let d ← strlenDim n; pure (ncdims ++ [d])
     let attrs := (c.attrs.filter (fun kv => !om.contains kv.1 && !(extra.map (·.1)).contains kv.1)) ++ extra
-    Prog.createVar ⟨ncvar, dims, attrs, c.cid⟩ (.pure ())
+    match c.strlen with
+    | none => Prog.createVar ⟨ncvar, ncdims, attrs, c.cid⟩ c.shape (.pure ())
+    | some n => do
+      let d ← strlenDim n
+      Prog.createVar ⟨ncvar, ncdims ++ [d], attrs, c.cid⟩ (c.shape ++ [n]) (.pure ())
 
 /-- `_write_dimension` for an axis. -/
 def writeDimension (ncdim : Name) (axis size : Nat) (unlim : Bool) : Prog Unit := do
@@ -384,22 +431,41 @@ def writeBounds (b : Option BReq) (coordDims : List Name) (coordVar : Name) (par
 def setKeyVar (key : Nat) (v : Option Name) : Prog Unit :=
   modA (fun a => { a with keyVar := a.keyVar.filter (·.1 != key) ++ [(key, v)] })
 
+/-- `_write_scalar_data` for the scalar parameters of a formula-terms reference, in order: a 0-d variable named
+after the term unless an equal one (same class, same contents, no dimensions) is registered.  Returns the
+`term: ncvar` entries. -/
+def writeScalars : List (String × Cons) → Prog (List String)
+  | [] => pure []
+  | (t, c) :: rest => do
+    let a ← getAux
+    let ncvar ← match alreadyInFile a c (some []) false with
+      | some e => pure e.ncvar
+      | none => do
+        let ncvar ← allocN t
+        writeVar ncvar [] c []
+        pure ncvar
+    let more ← writeScalars rest
+    pure (s!"{t}: {ncvar}" :: more)
+
 /-! ### One request -/
 
 def emitReq (fx : Fix) : Req → Prog Unit
   | .dimCoord key axis c base ncdim size unlim b => do
     let a ← getAux
     let hit := alreadyInFile a c none false
+    -- (52d4f19) an equal coordinate variable whose dimension another axis of this field already uses is not shared:
+    -- a variable must not span the same dimension twice
+    let used := a.axisDim.map (·.2)
     let create := match hit with
       | none => true
       | some e => match e.ncdims with
-        | some (d :: _) => e.ncvar != d
+        | some (d :: _) => e.ncvar != d || used.contains d
         | _ => false
     if create then
       let ncvar ← match base with
         | some bs => allocN bs
         | none => match ncdim with
-          | some d => pure d                     -- used as it is: no uniqueness test
+          | some d => if fx.dimCoordName then allocN d else pure d   -- as it was: used as it is, no uniqueness test
           | none => allocN "coordinate"
       writeDimension ncvar axis size unlim
       let extra ← writeBounds b [ncvar] ncvar c
@@ -429,7 +495,9 @@ def emitReq (fx : Fix) : Req → Prog Unit
       -- the axis names its netCDF dimension and a dimension of that name, size and (un)limitedness is
       -- registered, is no variable name, has no role and is not used by another axis of this field:
       -- that dimension is used rather than a renamed copy of it
-      if pinned && (unlim == a.unlimDims.contains base) && nm.sizeOf? base == some size && !used.contains base
+      if pinned && (unlim == a.unlimDims.contains base)
+          && (if fx.pinnedSize then nm.sizeOf? base == some size else (unlim || nm.sizeOf? base == some size))
+          && !used.contains base
           && !a.seen.any (·.ncvar == base) && !nm.roles.any (·.2 == base) then
         modA (fun a => { a with axisDim := a.axisDim.filter (·.1 != axis) ++ [(axis, base)] })
       else
@@ -496,12 +564,13 @@ def emitReq (fx : Fix) : Req → Prog Unit
           let ncvar ← allocN base
           writeVar ncvar ncdims c []
           setKeyVar key (some ncvar)
-  | .formula owner zaxis terms => do
+  | .formula owner zaxis terms params => do
+    let pft ← writeScalars params
     let a ← getAux
-    let ft := terms.filterMap (fun (t, k, _) => match lookup a.keyVar k with
+    let ft := pft ++ terms.filterMap (fun (t, k, _) => match lookup a.keyVar k with
       | some (some v) => some s!"{t}: {v}"
       | _ => none)
-    let bft := terms.filterMap (fun (t, k, axes) => match lookup a.keyVar k with
+    let bft := pft ++ terms.filterMap (fun (t, k, axes) => match lookup a.keyVar k with
       | some (some v) =>
         let bv := match (a.bounds.find? (·.1 == v)).map (·.2) with
           | some bb => if axes.contains zaxis then some bb else none
@@ -525,7 +594,7 @@ def emitReq (fx : Fix) : Req → Prog Unit
     | some _ => pure ()
     | none =>
       let ncvar ← allocN base
-      Prog.createVar ⟨ncvar, [], c.attrs, c.cid⟩ (.pure ())
+      Prog.createVar ⟨ncvar, [], c.attrs, c.cid⟩ [] (.pure ())
       modA (regSeen c ncvar (some []))
   | .fieldAnc key c axes base => do
     let a ← getAux
